@@ -372,6 +372,17 @@ Rotate(s) == [i \in 1..Len(s) |-> Rot(s[i])]
 Derived(s) == <<s, Reverse(s), Rotate(s)>>            \* an alignment built from its first row
 Ragged(s) == <<s, SubSeq(s, 2, Len(s)), SubSeq(s, 1, Len(s) - 2)>>   \* lengths L, L-1, L-2
 
+(* ragged family Q: three sequences whose lengths are taken independently from   *)
+(* {0, 1, b, b+1, 2b+2} (b = the writer's block size): shorter than, exactly,   *)
+(* one more than, and more than twice the wrap width; every order, so the first *)
+(* sequence is the shortest in some cases and the longest in others.  The       *)
+(* harness also replays the block-3 cases at the writers' DEFAULT width 60 by   *)
+(* widening the three positions of a block to 1, 6 and 53 residues (lengths     *)
+(* 0, 1, 60, 61, 127).                                                           *)
+SeqCycle == <<"A", "C", "-">>
+Pat(l, i) == [j \in 1..l |-> SeqCycle[((j + i) % 3) + 1]]
+QLensOf(b) == {0, 1, b, b + 1, 2 * b + 2}
+
 FirstSeqs == UNION {StringsOfLen(SeqAlphaA, n) : n \in SeqLensA} \cup UNION {StringsOfLen(SeqAlphaB, n) : n \in SeqLensB}
              \cup {[i \in 1..n |-> "C"] : n \in HomoLens}
 BlocksFor(f) == IF f = "json" THEN {NameBlock} ELSE Blocks
@@ -396,6 +407,8 @@ Selectors ==
     \cup UNION {{Sel("S", f, b, n, 0) : b \in BlocksFor(f), n \in {1, MaxN}} : f \in Fmts}
     \* R: ragged collections (unaligned only, formats without a common length)
     \cup UNION {{Sel("R", f, b, 3, 0) : b \in BlocksFor(f)} : f \in RaggedFmts}
+    \* Q: ragged collections with lengths on both sides of the wrap width, in every order
+    \cup UNION {{Sel("Q", f, b, 3, 0) : b \in BlocksFor(f)} : f \in RaggedFmts}
     \* P: two special names
     \cup (IF PairLen > 0 THEN {Sel("P", f, NameBlock, 2, 0) : f \in Fmts} ELSE {})
 
@@ -410,6 +423,9 @@ CasesOf(sl) ==
                     : s \in FirstSeqs}
           [] sl.fam = "R" ->
                {Case("R", sl.fmt, sl.block, BaseNames, Ragged(s), TRUE) : s \in {t \in FirstSeqs : Len(t) >= 2}}
+          [] sl.fam = "Q" ->
+               {Case("Q", sl.fmt, sl.block, BaseNames, <<Pat(l[1], 1), Pat(l[2], 2), Pat(l[3], 3)>>, TRUE)
+                    : l \in {t \in [1..3 -> QLensOf(sl.block)] : ~(t[1] = t[2] /\ t[2] = t[3])}}
           [] sl.fam = "P" ->
                {Case("P", sl.fmt, NameBlock, <<s1, s2>>, SubSeq(FixedSeqs, 1, 2), FALSE)
                     : s1 \in PairNames, s2 \in PairNames}
